@@ -429,6 +429,7 @@ func runC02(c *core.Ctx) {
 		}
 	}
 	c02Redefined(c, owner, &acc)
+	c02Names(c, owner, &acc, &rej)
 	c.Obs("thresholds_met_and_accepted", acc)
 	c.Obs("thresholds_not_met_and_rejected", rej)
 }
@@ -487,6 +488,80 @@ func c02Redefined(c *core.Ctx, owner gen.KeyPair, acc *int64) {
 			c.Violation("link signed by a key the layout does not define is counted (key id defined with other material by this layout)", id, detail)
 		default:
 			*acc++
+		}
+	}
+}
+
+// c02Names: the counting does not depend on how the step or the link directory is called. Names
+// with characters that mean something to a file-name pattern matcher are ordinary names.
+func c02Names(c *core.Ctx, owner gen.KeyPair, acc, rej *int64) {
+	if c.Shard != 3%c.NShards {
+		return
+	}
+	stepNames := []string{"s", "s[1]", "build[linux]", "s*", "s?", "s\\x", "s{a,b}", "s x", "s.1", "\u00fc-step", "[", "s]"}
+	dirNames := []string{"links", "li[nk]s", "l*", "l?s", "l\\s", "link dir", "[1]"}
+	for _, dsse := range []bool{false, true} {
+		env, err := newC02Env(c, dsse)
+		if err != nil {
+			continue
+		}
+		A, U := env.fn["A"], env.fn["U"]
+		allow := [][]string{{"ALLOW", "*"}}
+		for si, sn := range stepNames {
+			for di, dn := range dirNames {
+				if si > 0 && di > 0 && (si+di)%3 != 0 && c.Quick() {
+					continue
+				}
+				for _, honest := range []bool{true, false} {
+					id := fmt.Sprintf("names/dsse=%v/step=%q/dir=%q/honest=%v", dsse, sn, dn, honest)
+					if !c.Want(id) {
+						continue
+					}
+					base := filepath.Join(c.WorkDir, "c02-names")
+					os.RemoveAll(base)
+					dir := filepath.Join(base, dn)
+					if os.MkdirAll(dir, 0755) != nil {
+						continue
+					}
+					layout := gen.NewLayout([]intoto.Step{gen.Step(sn, 1, gen.KeyIDs(A.KeyPair), allow, allow)}, nil, gen.KeyMap(A.KeyPair))
+					md, _ := gen.SignedMeta(layout, dsse, owner.Priv)
+					link := gen.NewLink(sn, gen.Artifacts(map[string]string{"in": "i"}), gen.Artifacts(map[string]string{"out": "o"}))
+					if honest {
+						if _, _, err := gen.WriteLink(dir, link, A.Priv, dsse); err != nil {
+							continue // a name the file system does not take
+						}
+					}
+					gen.WriteLink(dir, link, U.Priv, dsse)
+					c.Begin(id)
+					obs := Verify(VerifyArgs{Layout: md, Keys: gen.KeyMap(owner), LinkDir: dir, Cwd: c.WorkDir})
+					c.End(id)
+					c.Eval(1)
+					detail := map[string]any{"step_name": sn, "link_directory": dn, "dsse": dsse, "honest_link_present": honest, "files": listDir(dir), "error": errStr(obs.Err)}
+					reportTrace(c, id, obs, detail)
+					c.Class("names", sn, dn, dsse, honest)
+					nameClass := "plain names"
+					if strings.ContainsAny(sn, "[]*?\\{") {
+						nameClass = "step name with pattern characters"
+					}
+					if strings.ContainsAny(dn, "[]*?\\{") {
+						if nameClass == "plain names" {
+							nameClass = "link directory name with pattern characters"
+						} else {
+							nameClass = "step and link directory names with pattern characters"
+						}
+					}
+					switch {
+					case honest && !obs.Accepted():
+						c.Violation("an honest link from the authorized functionary does not satisfy threshold 1 ("+nameClass+")", id, detail)
+					case !honest && obs.Accepted():
+						c.Violation("threshold 1 met without a link of the authorized functionary ("+nameClass+")", id, detail)
+					case honest:
+						*acc++
+					default:
+						*rej++
+					}
+				}
+			}
 		}
 	}
 }
@@ -573,7 +648,7 @@ func init() {
 	core.Register(&core.Property{
 		ID:    "C02",
 		Level: "exploration",
-		Rule: "layout with steps t (earlier), s (under test), u (later); step s with threshold 1..3 and authorization by {2 listed keys, 1 certificate constraint + layout root/intermediate CA, both}; link-file populations for s = all multisets of size<=2 (quick) / <=3 (thorough, + 2000 random ones of size 4-8) over a catalogue of 22 link kinds (honest key A/B, honest certificate C / D via intermediate, tampered, unsigned, unauthorized key, key of an earlier / a later step, copy under another name, copy with forged key-id entry without / with the honest certificate, relabelled copy (forged id with the honest signature value and certificate), junk signatures before/after, expired / foreign-root / constraint-failing certificate, garbage, truncated JSON, link of another step renamed) x 2 wrappers; the earlier step t also admits certificate functionary C (its verdict must not leak into s); every population of >=2 files is verified 8 times (map order), half of the verifications with the intermediate of a foreign chain passed as caller-supplied intermediate, half with a (non-matching) parameter dictionary, half through InTotoVerifyWithDirectory; the same populations against layouts that name no CA at all (no certificate counts); links that never count report other artifacts than the honest ones; VerifyLinkSignatureThesholds is also called directly and its map inspected; finally a sequence of two layouts that define one key id with different key material. Oracle: expected number of distinct counting functionaries known by construction. " +
+		Rule: "layout with steps t (earlier), s (under test), u (later); step s with threshold 1..3 and authorization by {2 listed keys, 1 certificate constraint + layout root/intermediate CA, both}; link-file populations for s = all multisets of size<=2 (quick) / <=3 (thorough, + 2000 random ones of size 4-8) over a catalogue of 22 link kinds (honest key A/B, honest certificate C / D via intermediate, tampered, unsigned, unauthorized key, key of an earlier / a later step, copy under another name, copy with forged key-id entry without / with the honest certificate, relabelled copy (forged id with the honest signature value and certificate), junk signatures before/after, expired / foreign-root / constraint-failing certificate, garbage, truncated JSON, link of another step renamed) x 2 wrappers; the earlier step t also admits certificate functionary C (its verdict must not leak into s); every population of >=2 files is verified 8 times (map order), half of the verifications with the intermediate of a foreign chain passed as caller-supplied intermediate, half with a (non-matching) parameter dictionary, half through InTotoVerifyWithDirectory; the same populations against layouts that name no CA at all (no certificate counts); links that never count report other artifacts than the honest ones; VerifyLinkSignatureThesholds is also called directly and its map inspected; a sequence of two layouts that define one key id with different key material; finally single-step chains whose step name and link directory name contain characters of file-name patterns ([ ] * ? \\ { }), blanks and non-ASCII letters (12 step names x 7 directory names, with and without the honest link). Oracle: expected number of distinct counting functionaries known by construction. " +
 			"non-trivial = at least one file for the step; distinct = (kind multiset, threshold, authorization, wrapper)",
 		Assumptions: []string{"a junk signature entry that carries the honest signer's own key id before the honest entry is not judged", "a link that an authorized functionary signed for ANOTHER step, renamed to this step's file name, is not judged (observed: it is counted; the statement only speaks about who signed)", "all links of a case report identical artifacts (agreement is C05's business)"},
 		Workers:     func(string) int { return 16 },
